@@ -14,11 +14,76 @@ import DimModel.Lib.Missing
 import DimModel.Lib.Dataset
 import DimModel.Lib.Interp
 import DimModel.Lib.OnDisk
+import DimModel.Lib.Heap
 open Lean
 namespace DimModel.Driver
 open DimModel.Codec
 
 def optKeys (j : Json) : P (Option (List DimKey)) := optOf (listOf dimKey) j
+
+
+/-! heap histories (C15) -/
+def attrSpec (j : Json) : P (List (String × Option (List String))) :=
+  listOf (fun e => do
+    let a ← arr e
+    match a.toList with
+    | [k, v] => do pure ((← str k), (← optOf (listOf str) v))
+    | _ => throw "bad attr spec") j
+
+def heapMut (j : Json) : P Heap.Mut := do
+  let a ← arr j
+  match a.toList with
+  | [t, x, y] =>
+    match (← str t) with
+    | "set_val" => do pure (.setVal (← nat x) (← int y))
+    | "rename" => do pure (.rename (← nat x) (← str y))
+    | "set_attr" => do pure (.setAttr (← str x) (← str y))
+    | "append_attr" => do pure (.appendAttr (← str x) (← str y))
+    | t => throw s!"bad mutation {t}"
+  | [t, x, y, z] =>
+    match (← str t) with
+    | "set_label" => do pure (.setLabel (← nat x) (← nat y) (← int z))
+    | "set_axis_attr" => do pure (.setAxisAttr (← nat x) (← str y) (← str z))
+    | "append_axis_attr" => do pure (.appendAxisAttr (← nat x) (← str y) (← str z))
+    | t => throw s!"bad mutation {t}"
+  | _ => throw "bad mutation"
+
+def heapOp (j : Json) : P Heap.Op := do
+  let a ← arr j
+  match a.toList with
+  | t :: rest =>
+    match (← str t), rest with
+    | "create", [shape, cells, axes, attrs] => do
+      let axs ← listOf (fun e => do
+        let x ← arr e
+        match x.toList with
+        | [n, l, ats] => do pure ((← str n), (← listOf int l), (← attrSpec ats))
+        | _ => throw "bad axis spec") axes
+      pure (.create (← listOf nat shape) (← listOf int cells) axs (← attrSpec attrs))
+    | "copy", [k] => do pure (.copy (← nat k))
+    | "transpose", [k, p] => do pure (.transpose (← nat k) (← listOf nat p))
+    | "squeeze", [k] => do pure (.squeeze (← nat k))
+    | "slice_all", [k] => do pure (.sliceAll (← nat k))
+    | "take_scalar", [k, d, p] => do pure (.takeScalar (← nat k) (← nat d) (← nat p))
+    | "take_list", [k, d, ps] => do pure (.takeList (← nat k) (← nat d) (← listOf nat ps))
+    | "add", [k, c] => do pure (.addScalar (← nat k) (← int c))
+    | "sort_axis", [k, d] => do pure (.sortAxis (← nat k) (← nat d))
+    | "mut", [k, m] => do pure (.mut (← nat k) (← heapMut m))
+    | t, _ => throw s!"bad heap op {t}"
+  | [] => throw "empty heap op"
+
+def encAVals (l : List (String × Heap.AVal)) : Json :=
+  Json.arr (l.map fun (k, v) => Json.arr #[Json.str k, match v with
+    | .atom s => Json.arr #[Json.str "atom", Json.str s]
+    | .list items => Json.arr #[Json.str "list", Json.arr (items.map Json.str).toArray]
+    | .dangling => Json.arr #[Json.str "dangling"]]).toArray
+
+def encArrObs : Option Heap.ArrObs → Json
+  | none => Json.null
+  | some o => Json.mkObj [("shape", encNats o.shape), ("values", encInts o.values),
+      ("axes", Json.arr (o.axes.map fun ax => Json.mkObj [("name", Json.str ax.name), ("labels", encInts ax.labels),
+          ("attrs", encAVals ax.attrs)]).toArray),
+      ("attrs", encAVals o.attrs)]
 
 /-- one step of an operation chain applied to an array (C10, C11, C05 histories) -/
 def applyStep (a : DimArray Cell) (st : Json) : P (Except Err (DimArray Cell)) := do
@@ -330,6 +395,14 @@ def handle (op : String) (req : Json) : P (List (String × Json)) := do
         | .error e => out := out ++ [Json.mkObj [("err", encErr e)]]
       | k => throw s!"unknown on-disk step {k}"
     pure [("lib", Json.arr out.toArray), ("final", encDimArray (OnDisk.load Cell.nan v))]
+  | "heap_history" => do
+    let ops ← listOf heapOp (← fld req "ops")
+    let mut st := Heap.St.init
+    let mut out : List Json := []
+    for op in ops do
+      st := Heap.step st op
+      out := out ++ [Json.arr (st.obs.map encArrObs).toArray]
+    pure [("lib", Json.arr out.toArray)]
   | _ => throw s!"unknown op {op}"
 
 def answer (line : String) : String :=
